@@ -199,8 +199,11 @@ public:
 		for (auto i=num_vars(); i--; ) {
 			if (HasInitExpression(i) &&
 					! VarUsageRef(i)) {
-				set_var_lb(i, 0.0);      // fix to 0
-				set_var_ub(i, 0.0);
+				// fix to 0, or to the nearest value within the bounds:
+				// the variable can still be an argument elsewhere
+				auto v = std::min(std::max(0.0, lb(i)), ub(i));
+				set_var_lb(i, v);
+				set_var_ub(i, v);
 			}
 		}
 	}
